@@ -57,6 +57,24 @@ func (t *Tape) draw(n int) int {
 	return v
 }
 
+// Draw is the exported form of draw, for harness code that runs outside a
+// bubble (between the nested runs of an enumerating RunOne).
+//
+//go:norace
+func (t *Tape) Draw(n int) int { return t.draw(n) }
+
+// Replaying reports whether the tape replays recorded values (confirmation,
+// minimisation, --replay) rather than drawing fresh ones.
+func (t *Tape) Replaying() bool { return t.replay }
+
+// Rest returns the not yet consumed values of a replay tape.
+func (t *Tape) Rest() []uint32 {
+	if !t.replay || t.pos >= len(t.Vals) {
+		return nil
+	}
+	return append([]uint32(nil), t.Vals[t.pos:]...)
+}
+
 // Used is the number of draws made so far.
 //
 //go:norace
